@@ -21,7 +21,9 @@ LineAlphabet == { B("10 X = 1"), B("10"), B("10 PRINT 1 +"), B("10 PRINT \""), B
                   B("20 Y = A$ = B$"),
                   \* indented lines whose diagnostic or token ends on a multi-byte character
                   B(" 30 ") \o <<195, 169>>, <<9>> \o B("50 REM ") \o <<195, 169>>,
-                  B(" 40 PRINT \"") \o <<226, 130, 172>> \o B("\" + 1") }
+                  B(" 40 PRINT \"") \o <<226, 130, 172>> \o B("\" + 1"),
+                  \* characters that are numeric but not ASCII digits, where a line number is expected
+                  <<239, 188, 146, 239, 188, 144>> \o B(" PRINT 1"), B("1") \o <<239, 188, 144>> \o B(" PRINT 2") }
 
 VARIABLES file
 vars == <<file>>
